@@ -67,6 +67,30 @@ theorem run_spec {H : FHeap V} {t : Table V} (hI : OInv H t) (me : Nat)
     (fun op h => List.mem_map.mpr ⟨op, h, rfl⟩)
   exact ⟨⟨inv_of_sim hg.sim hi hg.wf.wf_fwd, hg.wf⟩, hf⟩
 
+theorem run_me (ops : List (TOp V)) : ∀ (x : FTx V), (x.run ops).me = x.me := by
+  induction ops with
+  | nil => intro x; rfl
+  | cons op ops ih =>
+    intro x; simp only [FTx.run, List.foldl_cons] at ih ⊢; rw [ih]
+    cases op with
+    | index d v =>
+      simp only [FTx.step, FTx.indexDoc]
+      cases v with
+      | none => simp only; split <;> simp [FTx.rd, FTx.niAdd, unindexDoc_me]
+      | some v =>
+        simp only
+        repeat' split
+        all_goals simp [FTx.rd, FTx.niRemove, insertDoc_me, unindexDoc_me]
+    | unindex d => exact unindexDoc_me x d
+
+/-- the objects in a transaction's heap after its run belong to the snapshot or to it -/
+theorem run_owner {H : FHeap V} {t : Table V} (hI : OInv H t) (me : Nat)
+    (hown : ∀ o, (AMap.get H.post o).isSome → o.1 ≠ me) (ops : List (TOp V)) (o : Oid)
+    (h : (AMap.get ((FTx.start H me).run ops).heap.post o).isSome) :
+    (AMap.get H.post o).isSome ∨ o.1 = me := by
+  have := (run_spec hI me hown ops).2.fresh_owner o h
+  rwa [run_me] at this
+
 /-! ### document tables -/
 
 theorem get_stepT_ne (t : Table V) (op : TOp V) (d : Int) (h : op.doc ≠ d) :
